@@ -51,6 +51,9 @@ class S2D(Sym):
 
 
 def getitem2d(I, m, idx):
+    if isinstance(idx, SArray) and idx.kind == "bool":
+        # m[rows] is m[rows, :]
+        idx = (idx, slice(None, None, None))
     if isinstance(idx, tuple) and len(idx) == 2:
         r, c = idx
         if isinstance(r, slice) and r == slice(None, None, None) and isinstance(c, int):
@@ -76,6 +79,20 @@ def setitem2d(I, m, idx, value):
     if isinstance(idx, tuple) and len(idx) == 2 and isinstance(idx[1], int):
         sel, c = idx
         old = m.snap()
+        if isinstance(sel, slice) and sel == slice(None, None, None):
+            # m[:, c] = <whole column>
+            if isinstance(value, SArray) and m.rowmask is None:
+                vs = value.snap()
+                m.write(I, lambda r, cc: vs(r) if cc == c else old(r, cc))
+                return
+            if isinstance(value, SCompressed) and m.rowmask is not None and A.same_mask(I, value.maskfn, m.rowmask):
+                vf = value.fn
+                m.write(I, lambda r, cc: vf(r) if cc == c else old(r, cc))
+                return
+            if not A.is_arraylike(value):
+                m.write(I, lambda r, cc: value if cc == c else old(r, cc))
+                return
+            raise Unsupported("whole-column store of this value")
         if isinstance(sel, SArray) and sel.kind == "bool" and m.rowmask is None:
             ss = sel.snap()
             if isinstance(value, SCompressed):
